@@ -366,7 +366,17 @@ func c10Waiters(c *Ctx, name string, uncacheable bool, b vsched.Bounds) Sched {
 // c10SlowStoreOtherKey: all keys in one shard, /hot cached in memory. A request for /cold is inside a (slow) store
 // call; a request for /hot must not be waiting for a lock held across that call.
 func c10SlowStoreOtherKey(c *Ctx, name string, b vsched.Bounds) Sched {
+	return c10SlowStoreOther(c, name, b, false)
+}
+
+// c10SlowStoreOther: pass = the key in memory is in its hit-for-pass period instead of holding a response (C07: a
+// passed request is never queued behind another request, here the store call of a request for another key).
+func c10SlowStoreOther(c *Ctx, name string, b vsched.Bounds, pass bool) Sched {
 	cfg := env.BasicConfig(config.CacheConfig{Store: "fault://c10slow"})
+	label, sig := "hit", "memory-hit"
+	if pass {
+		label, sig = "hitForPass", "passed-request"
+	}
 	return Sched{
 		Name:   name,
 		Opt:    vsched.Options{RecordBlocked: true},
@@ -379,7 +389,12 @@ func c10SlowStoreOtherKey(c *Ctx, name string, b vsched.Bounds) Sched {
 			oneShard("c1", 8, st)
 			vtime.Set(vtime.Base)
 			vsched.ClockStart = vtime.Base
-			e.Respond = func(oc *env.OriginCall) env.OriginResp { return env.Cacheable(oc, 600, "p") }
+			e.Respond = func(oc *env.OriginCall) env.OriginResp {
+				if pass && oc.URI == "/hot" {
+					return env.Uncacheable(oc, "p")
+				}
+				return env.Cacheable(oc, 600, "p")
+			}
 			e.Do(env.Req{URI: "/hot", Rid: "pro"})
 			e.Events()
 			res := make([]*env.Result, 3)
@@ -394,13 +409,13 @@ func c10SlowStoreOtherKey(c *Ctx, name string, b vsched.Bounds) Sched {
 					return nil
 				}
 				for i := 1; i <= 2; i++ {
-					if res[i] == nil || res[i].Status != 200 || res[i].XStatus != "hit" {
-						return &vsched.Violation{Sig: "memory-hit-lost", Msg: fmt.Sprintf("request %d for the cached key answered %v", i, res[i])}
+					if res[i] == nil || res[i].Status != 200 || res[i].XStatus != label {
+						return &vsched.Violation{Sig: sig + "-lost", Msg: fmt.Sprintf("request %d for the key held in memory (%s) answered %v %s", i, label, res[i], res[i].PanicStack)}
 					}
 				}
 				for _, bo := range x.BlockedAt {
 					if bo.Tid != 0 && bo.Owner == 0 && bo.OwnerOp == vsched.OpYield && bo.OwnerRes == env.ResStore {
-						return &vsched.Violation{Sig: "memory-hit-waits-for-store-call-of-other-key", Msg: fmt.Sprintf("the request of thread %d for the memory-cached key /hot is blocked on a lock held by the request for /cold, which is inside a store call: a slow store delays answers it has nothing to do with", bo.Tid)}
+						return &vsched.Violation{Sig: sig + "-waits-for-store-call-of-other-key", Msg: fmt.Sprintf("the request of thread %d for the key /hot held in memory ("+label+") is blocked on a lock held by the request for /cold, which is inside a store call: a slow store delays answers it has nothing to do with", bo.Tid)}
 					}
 				}
 				return nil
